@@ -213,7 +213,7 @@ def o_option_plumbing(ctx):
     ctx.claim('printed-rows-on-the-window-lattice', printed == want, detail='%r: printed %r, expected %r' % (args, printed, want))
 
 
-def mk_grid_fp(K):
+def mk_grid_fp(K, slo=1, shi=200):
     def body(ctx):
         """make_grid in IEEE double arithmetic: for a decimal grid
         (min, min + K*step, step) given to two decimals the generator yields
@@ -221,7 +221,7 @@ def mk_grid_fp(K):
         import propka.lib as L
         from symx import fp
         a, ka = fp.decimal_input(ctx, 'min_hundredths', 0, 1400)
-        s, ks = fp.decimal_input(ctx, 'step_hundredths', 1, 200)
+        s, ks = fp.decimal_input(ctx, 'step_hundredths', slo, shi)
         if ctx.native:
             mx = (ka + K * ks) / 100.0
         else:
@@ -328,11 +328,14 @@ def obligations(tier):
                           claim_doc='K+1 points min + i*step, none beyond max', max_paths=2000))
     # QF_FP queries are discharged by the cvc5 binary (z3 needs minutes per query)
     ks = () if tier == 'quick' else (1, 2, 3, 5, 10)
+    # the step range is cut into 10 parts (one query each: the whole range at once is not decided within 10 minutes by either solver)
     for K in ks:
-        obs.append(Obligation('O3-grid-end-point-FP[K=%d]' % K, mk_grid_fp(K), code=['propka/lib.py:make_grid'],
-                              bounds='IEEE double, RNE; min = a/100 (a in [0,1400]), step = s/100 (s in [1,200]), max = (a+%d*s)/100 as correctly rounded doubles' % K,
+      for slo in range(1, 200, 20):
+        shi = slo + 19
+        obs.append(Obligation('O3-grid-end-point-FP[K=%d,step %d-%d]' % (K, slo, shi), mk_grid_fp(K, slo, shi), code=['propka/lib.py:make_grid'],
+                              bounds='IEEE double, RNE; min = a/100 (a in [0,1400]), step = s/100 (s in [%d,%d]), max = (a+%d*s)/100 as correctly rounded doubles' % (slo, shi, K),
                               claim_doc='exactly K+1 points (the end point of a decimal grid is not lost to accumulated rounding)',
-                              query_timeout_ms=300000, wall_s=1500, max_paths=200, oneshot=True, backend='cvc5'))
+                              query_timeout_ms=600000, wall_s=1500, max_paths=200, oneshot=True, backend='cvc5'))
     for st in ((100, 50, 200) if tier == 'quick' else (100, 50, 200, 25, 150)):
         obs.append(Obligation('O4-window-filter[step=%.2f]' % (st / 100.0), mk_window(st), code=['propka/output.py:get_folding_profile_section'],
                               bounds='window step %.2f, window start lo/100 with lo in [0,300], 2-3 window points; 4 profile points at symbolic '
